@@ -453,10 +453,20 @@ func (vc *VC) execPanic(ins *ssa.Panic) {
 		env := vc.entryEnv()
 		var cs []string
 		for _, cl := range vc.c.PanicsIf {
+			if vc.c.clauseMode(cl) != vc.modeName() {
+				continue
+			}
 			cs = append(cs, vc.compileBool(env, cl.N))
 		}
 		vc.oblige("safety.panic", pc, sOr(cs...), ins.Pos(), "explicit panic only under the documented condition")
 		return
 	}
 	vc.oblige("safety.panic", pc, "false", ins.Pos(), "explicit panic is unreachable")
+}
+
+func (vc *VC) modeName() string {
+	if vc.intMode {
+		return "int"
+	}
+	return "bv"
 }
